@@ -142,3 +142,148 @@ class MinimalCoreReservations:
 
     def ensures_every_core_covered_exactly_once(cores, g_done):
         return g_done == seq_len(cores)
+
+
+# ---- the point-to-point table: eight 3-bit entries per 32-bit word, one read per column --------------------------------------
+from pyvc.values import TMap   # noqa: E402
+from pyvc.speclib import forall_int, opaque   # noqa: E402
+
+P2P_BASE = 0xE1000000 + 0x10000
+
+
+def _rsf_dims(E, obj, args, kwargs, st, node):
+    return [(st, st.env["g_dims"], None)]
+
+
+def _read_p2p(E, obj, args, kwargs, st, node):
+    """self.read(address, length, x, y): the bytes of the router's P2P table memory (ghost g_mem, indexed from P2P_BASE)"""
+    from pyvc import seqs
+    addr, n = args[0], args[1]
+    s = st.copy()
+    s.trace = ListV(s.trace.items + (("read", addr, n) + tuple(args[2:]),))
+    data = seqs.seq_slice(st.env["g_mem"], addr - P2P_BASE, addr - P2P_BASE + n)
+    return [(s, data, None)]
+
+
+def le32(b, i):
+    return select(b, i) + 256 * select(b, i + 1) + 65536 * select(b, i + 2) + 16777216 * select(b, i + 3)
+
+
+@opaque
+def word_at(mem, idx):
+    """the little-endian 32-bit word at byte offset idx of the table memory"""
+    return le32(mem, idx)
+
+
+def field(w, k):
+    """3-bit field number k (0..7) of a word"""
+    return sum(((bits(w, 3 * j, 3) if k == j else 0) for j in range(8)))
+
+
+@opaque
+def p2p_entry(mem, col, row):
+    """the documented layout: column `col` starts 256 entries (= 32 words) after the previous one; entry `row` of a column is
+    the 3-bit field number row % 8 of its word number row // 8"""
+    return field(word_at(mem, 128 * col + 4 * (row // 8)), row % 8)
+
+
+@contract("rig/machine_control/machine_controller.py::MachineController.get_p2p_routing_table")
+class GetP2PTable:
+    """ghost g_done = number of words of the current column consumed so far (keeps the loop arithmetic linear)"""
+    properties = ("C14",)
+    params = dict(self=MC, x=TInt(0, 255), y=TInt(0, 255), g_dims=TInt(0, 65535), g_mem=BYTES)
+    externals = {"MachineController.read_struct_field": _rsf_dims, "MachineController.read": _read_p2p}
+    options = {"decorators": {"use_contextual_arguments": "identity"}, "trace_in_loops": False,
+               "var_shapes": {"table": TMap(TTuple(TInt(), TInt()), TInt(0, 7)), "raw_table_col": BYTES, "raw_word": BYTES, "row": TInt(), "word": TInt(0, 2 ** 32 - 1)},
+               "int_class": "rig/machine_control/consts.py::P2PTableEntry"}
+    loop_headers = {0: "for col in range(width):", 1: "while row < height:", 2: "for entry in range(min(8, height - row)):"}
+    loop_unroll = {2: 8}        # at most eight entries per word: unrolled, with the unwinding obligation
+    ghost_vars = {"g_done": TInt()}
+    ghost_updates = {"row = 0": ["gupd_new_column"],
+                     "raw_word, raw_table_col = raw_table_col[:4], raw_table_col[4:]": ["gupd_one_more_word"]}
+    ghost_asserts = {"word, = ...": ["ghost_word_is_the_next_word_of_the_column"],
+                     "table[(col, row)] = ...": [
+                         "ghost_entry_number_is_the_row_within_its_word", "ghost_quotient_and_remainder", "ghost_value_stored",
+                         "ghost_documented_field_is_that_field_of_the_word", "ghost_the_entry_stored_is_the_documented_field"]}
+    assumptions = ["the transport is external: sv.p2p_dims and the router's P2P table memory (256 x 256 three-bit entries) are ghost inputs"]
+
+    def native(x, y, g_dims, g_mem):
+        from rig.machine_control.machine_controller import MachineController
+        from rig.utils.contexts import ContextMixin, Required
+        mem = bytes(g_mem) + bytes(256 * 128 - len(g_mem))
+        mc = MachineController.__new__(MachineController)
+        ContextMixin.__init__(mc, {"app_id": 66, "x": Required, "y": Required, "p": Required})
+        calls = []
+        mc.read_struct_field = lambda *a, **k: g_dims
+        mc.read = lambda addr, n, *a, **k: (calls.append((addr, n)), mem[addr - P2P_BASE:addr - P2P_BASE + n])[1]
+        t = mc.get_p2p_routing_table(x, y)
+        return {"__native__": True, "result": None, "table": {(int(c), int(r)): int(v) for (c, r), v in t.items()}, "mem": mem}
+
+    def native_check(inputs, out):
+        w, h = (inputs["g_dims"] >> 8) & 255, inputs["g_dims"] & 255
+        mem = out["mem"]
+        want = {}
+        for c in range(w):
+            for r in range(h):
+                word = int.from_bytes(mem[128 * c + 4 * (r // 8):128 * c + 4 * (r // 8) + 4], "little")
+                want[(c, r)] = (word >> (3 * (r % 8))) & 7
+        return [] if out["table"] == want else ["one_entry_per_chip_position_with_the_documented_field"]
+
+    def sample_domain(g_dims):
+        return g_dims % 256 <= 20 and g_dims // 256 <= 6
+
+    def requires(g_mem):
+        return seq_len(g_mem) == 256 * 128       # 256 columns of 32 words
+
+    def gupd_new_column(g_done):
+        return {"g_done": 0}
+
+    def gupd_one_more_word(g_done):
+        return {"g_done": g_done + 1}
+
+    # ---- columns
+    def inv_0_done_columns(table, g_mem, height, _k0):
+        return forall_int(lambda c, r: ((c, r) in table) == (0 <= c < _k0 and 0 <= r < height)
+                          and implies((c, r) in table, table[(c, r)] == p2p_entry(g_mem, c, r)))
+
+    # ---- words of one column (the last word of a column may be used only in part: then row == height)
+    def inv_1_position(height, row, g_done):
+        return g_done >= 0 and 0 <= row <= height and row == min(8 * g_done, height)
+
+    def inv_1_rows_of_this_column(table, g_mem, height, col, row):
+        return forall_int(lambda c, r: ((c, r) in table) == ((0 <= c < col and 0 <= r < height) or (c == col and 0 <= r < row))
+                          and implies((c, r) in table, table[(c, r)] == p2p_entry(g_mem, c, r)))
+
+    def inv_1_rest_of_the_column_data(g_mem, height, col, g_done, raw_table_col):
+        return (seq_len(raw_table_col) == ((height + 7) // 8) * 4 - 4 * g_done
+                and forall_range(0, seq_len(raw_table_col), lambda i: select(raw_table_col, i) == select(g_mem, 128 * col + 4 * g_done + i)))
+
+    def variant_1(row, height):
+        return height - row
+
+    # ---- one word, one entry
+    def ghost_word_is_the_next_word_of_the_column(word, g_mem, col, row, g_done):
+        # (after the ghost update: g_done - 1 is the number of this word)
+        return row == 8 * (g_done - 1) and word == word_at(g_mem, 128 * col + 4 * (g_done - 1))
+
+    def ghost_entry_number_is_the_row_within_its_word(row, entry, height, g_done):
+        return row == 8 * (g_done - 1) + entry and 0 <= row < height
+
+    def ghost_quotient_and_remainder(row, entry, g_done):
+        return row // 8 == g_done - 1 and row % 8 == entry
+
+    def ghost_value_stored(table, col, row, word, entry):
+        return (col, row) in table and table[(col, row)] == bits(word, 3 * entry, 3)
+
+    def ghost_documented_field_is_that_field_of_the_word(g_mem, col, row, word, entry):
+        return p2p_entry(g_mem, col, row) == bits(word, 3 * entry, 3)
+
+    def ghost_the_entry_stored_is_the_documented_field(table, g_mem, col, row):
+        # (evaluated after the assignment)
+        return (col, row) in table and table[(col, row)] == p2p_entry(g_mem, col, row)
+
+    def ensures_one_entry_per_chip_position_with_the_documented_field(g_dims, g_mem, result):
+        w = (g_dims // 256) % 256
+        h = g_dims % 256
+        return forall_int(lambda c, r: ((c, r) in result) == (0 <= c < w and 0 <= r < h)
+                          and implies((c, r) in result, result[(c, r)] == p2p_entry(g_mem, c, r)))
